@@ -13,6 +13,13 @@ mod verif_c17_state {
 
     //@include ../_shared/kani_stubs.rs
 
+    /// stub for `tokio::sync::Notify::notify_waiters` (called by `SetOnce::set` after the value is stored):
+    /// no task waits on the SetOnce inside a harness, so waking "all waiters" has no effect on the state under
+    /// contract.  (Its real body walks an intrusive waiter list and calls wakers through raw vtables; CBMC
+    /// resolves those calls to every `fn(*const ())` of the crate graph -- minutes per call.)
+    #[allow(dead_code)]
+    fn noop_notify_waiters(_n: &tokio::sync::Notify) {}
+
     const MAPPED: [QlogConnectionState; 9] = [
         QlogConnectionState::Base(BaseConnectionStates::Attempted),
         QlogConnectionState::Base(BaseConnectionStates::HandshakeStarted),
@@ -111,6 +118,7 @@ mod verif_c17_state {
     #[kani::proof]
     #[kani::unwind(2)]
     #[kani::stub(qevent::telemetry::macro_support::build_and_emit_event, noop_emit)]
+    #[kani::stub(tokio::sync::Notify::notify_waiters, noop_notify_waiters)]
     fn update_contract() {
         let code: u8 = kani::any();
         kani::assume(code <= 9);
@@ -139,6 +147,7 @@ mod verif_c17_state {
     #[kani::proof]
     #[kani::unwind(2)]
     #[kani::stub(qevent::telemetry::macro_support::build_and_emit_event, noop_emit)]
+    #[kani::stub(tokio::sync::Notify::notify_waiters, noop_notify_waiters)]
     fn enter_closing_contract() {
         let code: u8 = kani::any();
         let term: Option<u32> = kani::any();
@@ -168,6 +177,7 @@ mod verif_c17_state {
     #[kani::proof]
     #[kani::unwind(2)]
     #[kani::stub(qevent::telemetry::macro_support::build_and_emit_event, noop_emit)]
+    #[kani::stub(tokio::sync::Notify::notify_waiters, noop_notify_waiters)]
     fn enter_draining_contract() {
         let code: u8 = kani::any();
         let term: Option<u32> = kani::any();
@@ -201,6 +211,7 @@ mod verif_c17_state {
     #[kani::proof]
     #[kani::unwind(2)]
     #[kani::stub(qevent::telemetry::macro_support::build_and_emit_event, noop_emit)]
+    #[kani::stub(tokio::sync::Notify::notify_waiters, noop_notify_waiters)]
     fn lemma_invariant_initial_and_other_ops() {
         let fresh = ArcConnState::new();
         assert!(fresh.state.load(Ordering::Acquire) == 0 && terminated_code(&fresh).is_none() && inv(0, None), "C17.state.inv.holds_initially");
@@ -228,6 +239,7 @@ mod verif_c17_state {
     #[kani::proof]
     #[kani::unwind(2)]
     #[kani::stub(qevent::telemetry::macro_support::build_and_emit_event, noop_emit)]
+    #[kani::stub(tokio::sync::Notify::notify_waiters, noop_notify_waiters)]
     fn lemma_terminating_error_fixed_once() {
         let st = ArcConnState::new();
         let (e1, e2): (u32, u32) = (kani::any(), kani::any());
@@ -247,23 +259,5 @@ mod verif_c17_state {
         assert!(terminated_code(&st) == Some(e1 as u64), "C17.state.history.terminating_error_is_the_first");
         assert!(c2 >= c1 && c1 >= 7, "C17.state.history.state_only_moves_forward");
         kani::cover!(e1 != e2 && c2 == 8 && c1 == 7, "C17.state.history.reach_local_then_peer_close");
-    }
-
-    #[kani::proof]
-    #[kani::unwind(2)]
-    fn exp_setonce_error() {
-        let s: SetOnce<Error> = SetOnce::new();
-        let e: u32 = kani::any();
-        let r = s.set(app_error(e));
-        assert!(r.is_ok(), "C17.state.exp.a");
-    }
-    #[kani::proof]
-    #[kani::unwind(2)]
-    fn exp_setonce_u64() {
-        let s: SetOnce<u64> = SetOnce::new();
-        let e: u32 = kani::any();
-        let r = s.set(e as u64);
-        assert!(r.is_ok(), "C17.state.exp.a");
-        assert!(s.get() == Some(&(e as u64)), "C17.state.exp.b");
     }
 }
